@@ -222,6 +222,9 @@ def run_combo(ctx, idx, A, op, Bq, tier, matrix=None):
         pairs.append((vas[1], vbs[0] * 1e-3))          # a (possibly negative) left operand dominating a small right one
     if op == '/' and SI.SIGN.get(kb) != '>0':
         pairs.append((vas[0], 0.0))
+    if op in '+-' and (ka in NUM) != (kb in NUM):
+        # a plain zero next to a quantity: no kind is dictated for number +- quantity, whatever the number
+        pairs.append((0.0, vbs[0]) if ka in NUM else (vas[0], 0.0))
     if op in '+-' and ka not in NUM and kb not in NUM:
         pairs.append((vas[1], vbs[1] * 1e3))
         pairs.append((vas[0], vas[0]))
